@@ -1215,7 +1215,10 @@ def pyref(prog, defs, with_taint=False, mode="exact"):
                     V[("rdepth", s[1])] = rd
                     if rd >= 3:
                         chain3[0] = True
-                    if chain3[0]:
+                    # The stale read was first pinned behind a depth-3 path read; the final seed sweep (seed 13) showed the
+                    # same defect without one (object graph of depth 3 built, only depth-2 reads before the stale read).
+                    # The signature that is kept is the value: EXACTLY what the cell held before the path-variable write.
+                    if True:
                         ps = frozenset().union(*[PW.get((x[1], field), frozenset()) for x in V[s[2]]])
                         if ps:
                             pathstale.setdefault(key_of(sid), set()).update(ps)
